@@ -768,3 +768,9 @@ HARMLESS += [
     # decrypt_data with split_at instead of two range indexings, the length guard kept
     dict(id="H-C04-decrypt-split-at", prop="C04", file="crates/core/src/crypto/aespoly1305.rs", old="        let nonce = Nonce::from_slice(&data[0..16]);\n        Aes256CtrPoly1305Aes::new(&self.0)\n            .decrypt(nonce, &data[16..])", new="        let (nonce, ciphertext) = data.split_at(16);\n        let nonce = Nonce::from_slice(nonce);\n        Aes256CtrPoly1305Aes::new(&self.0)\n            .decrypt(nonce, ciphertext)"),
 ]
+
+TA13 = "crates/core/src/archiver/tree_archiver.rs"
+MUTATIONS += [
+    # the snapshot's root is taken from the parent snapshot whenever there is one
+    dict(id="C01-root-tree-from-parent", prop="C01", file=TA13, old="        let id = self.backup_tree(&PathBuf::new(), &parent)?;\n        let stats = self.tree_packer.finalize()?;", new="        let id = self.backup_tree(&PathBuf::new(), &parent)?;\n        let id = parent_tree.unwrap_or(id);\n        let stats = self.tree_packer.finalize()?;"),
+]
